@@ -1,5 +1,6 @@
 """C01 Transitions run exits, entries and initial transitions in UML order (DESIGN 6/C01)."""
-from vf.core import ladder, verdict, concrete, PASS, FAIL
+from vf.core import PASS, FAIL
+from vf.family import Family, set_tier_all, jobs_all
 from vf import charts
 
 PROP = "C01"
@@ -20,33 +21,27 @@ EXPLANATION = ("Bounded symbolic execution (CrossHair/z3) of the real dispatch/t
 RULE = ("one case per parameter tuple satisfying the precondition (enumerated by the solver, count cross-checked); "
         "non-trivial = the oracle expects at least one exit or entry besides the offers")
 
-LIM = {"quick": dict(N=8, l=3, a=3, b=4, j=5, hops=2, hx=(0, 7)),
-       "thorough": dict(N=10, l=3, a=4, b=5, j=5, hops=3, hx=(0, 1, 2, 3, 4, 5, 6, 7))}
-CUR = dict(LIM["quick"])
+LIM = {"quick": dict(N=8, hops=2, hxs=(0, 7)),
+       "thorough": dict(N=10, hops=3, hxs=(0, 1, 2, 3, 4, 5, 6, 7))}
 
 
 def bounds(tier):
   d = dict(LIM[tier])
-  d["meaning"] = ("N = max states l+a+b+j1+j2+j3; l trunk, a source branch, b target branch, j max levels per init hop, "
-                  "hops = consecutive initial transitions, hx = bitmask of entry/exit/init left implicit; pass mode both")
+  d["meaning"] = ("N = max states l+a+b+j1+j2+j3 (l<=3 trunk, a<=4 source branch, b<=5 target branch, each init hop <=5 levels), "
+                  "hops = consecutive initial transitions, hxs = bitmasks of entry/exit/init left implicit; both pass modes")
   return d
 
 
-def pre_step(b, k, tsel, j1, j2, j3):
-  """precondition over the symbolic parameters; l, a, pm, hx are fixed per partition (PART)"""
-  c = CUR
-  l, a = PART["l"], PART["a"]
-  if not (0 <= b <= c["b"]):
+def pre_step(v, lim):
+  if lim["hops"] < 3 and v["j3"] != 0:
     return False
-  if not (0 <= j1 <= c["j"] and 0 <= j2 <= c["j"] and 0 <= j3 <= c["j"]):
+  if (v["j2"] > 0 and v["j1"] == 0) or (v["j3"] > 0 and v["j2"] == 0):
     return False
-  if c["hops"] < 3 and j3 != 0:
+  if v["l"] + v["a"] + v["b"] + v["j1"] + v["j2"] + v["j3"] > lim["N"]:
     return False
-  if (j2 > 0 and j1 == 0) or (j3 > 0 and j2 == 0):
+  if not (v["k"] < v["l"] + v["a"] and v["tsel"] < v["l"] + v["a"] + v["b"]):
     return False
-  if l + a + b + j1 + j2 + j3 > c["N"]:
-    return False
-  if not (0 <= k < l + a and 0 <= tsel < l + a + b):
+  if v["hx"] not in lim["hxs"]:
     return False
   return True
 
@@ -85,63 +80,16 @@ def case_step(l, a, b, k, tsel, j1, j2, j3, pm, hx):
   return PASS(nontrivial=nontrivial)
 
 
-def h_step(b: int, k: int, tsel: int, j1: int, j2: int, j3: int) -> bool:
-  """
-  pre: pre_step(b, k, tsel, j1, j2, j3)
-  post: _
-  """
-  c = CUR
-  l, a, pm, hx = PART["l"], PART["a"], PART["pm"], PART["hx"]
-  b = ladder(b, 0, c["b"])
-  j1 = ladder(j1, 0, c["j"])
-  j2 = ladder(j2, 0, c["j"])
-  j3 = ladder(j3, 0, c["j"])
-  k = ladder(k, 0, l + a - 1)
-  tsel = ladder(tsel, 0, l + a + b - 1)
-  return verdict((l, a, b, k, tsel, j1, j2, j3, pm, hx), concrete(case_step, l, a, b, k, tsel, j1, j2, j3, pm, hx))
 
-
-CASES = {"h_step": case_step}
-
-
-def count(part):
-  """number of parameter tuples of a partition, computed independently of CrossHair"""
-  global PART
-  saved, PART = PART, part
-  c = CUR
-  l, a = part["l"], part["a"]
-  n = 0
-  try:
-    for b in range(c["b"] + 1):
-      for j1 in range(c["j"] + 1):
-        for j2 in range(c["j"] + 1):
-          for j3 in range(c["j"] + 1):
-            if l + a + b + j1 + j2 + j3 > c["N"]:
-              continue
-            for k in range(l + a):
-              for t in range(l + a + b):
-                if pre_step(b, k, t, j1, j2, j3):
-                  n += 1
-  finally:
-    PART = saved
-  return n
+Family(globals(), "h_step",
+       params=[("l", 0, 3), ("a", 1, 4), ("b", 0, 5), ("k", 0, 6), ("tsel", 0, 11),
+               ("j1", 0, 5), ("j2", 0, 5), ("j3", 0, 5), ("pm", 0, 1), ("hx", 0, 7)],
+       pre=pre_step, case=case_step, split=["l", "a", "pm", "hx"], tiers=LIM)
 
 
 def set_tier(tier):
-  CUR.clear()
-  CUR.update(LIM[tier])
+  set_tier_all(globals(), tier)
 
 
 def jobs(tier):
-  set_tier(tier)
-  out = []
-  for hx in LIM[tier]["hx"]:
-    for pm in (0, 1):
-      for l in range(CUR["l"] + 1):
-        for a in range(1, CUR["a"] + 1):
-          part = {"l": l, "a": a, "pm": pm, "hx": hx, "tier": tier}
-          n = count(part)
-          if n:
-            out.append({"harness": "h_step", "part": part, "expected": n,
-                        "timeout": 300 if tier == "quick" else 1800})
-  return out
+  return jobs_all(globals(), tier)
